@@ -304,6 +304,83 @@ theorem field_ok {w r : List Char} (hw : FieldName w) (hr : NotHead isFieldCh r)
   simpa using Parses.seq h1 (Parses.act (.addField .text) r)
 
 
+/-! ### Reserved keys -/
+
+/-- The reserved argument names of the grammar (`field <- <fieldExpr / reserved>`). -/
+def reservedKws : List (List Char) :=
+  [['_', 'r', 'o', 'w'], ['_', 'c', 'o', 'l'], ['_', 's', 't', 'a', 'r', 't'], ['_', 'e', 'n', 'd'],
+   ['_', 't', 'i', 'm', 'e', 's', 't', 'a', 'm', 'p'], ['_', 'f', 'i', 'e', 'l', 'd']]
+
+/-- An argument key: a field name or one of the reserved names. -/
+def KeyName (k : List Char) : Prop := FieldName k ∨ k ∈ reservedKws
+
+theorem reserved_head {w : List Char} (h : w ∈ reservedKws) : ∃ t, w = '_' :: t := by
+  simp only [reservedKws, List.mem_cons, List.not_mem_nil, or_false] at h
+  rcases h with rfl | rfl | rfl | rfl | rfl | rfl <;> exact ⟨_, rfl⟩
+
+theorem KeyName.head {k : List Char} (h : KeyName k) : ∃ c cs, k = c :: cs ∧ (isAlpha c = true ∨ c = '_') := by
+  rcases h with ⟨c, cs, rfl, hc, _⟩ | h
+  · exact ⟨c, cs, rfl, Or.inl hc⟩
+  · obtain ⟨t, rfl⟩ := reserved_head h; exact ⟨'_', t, rfl, Or.inr rfl⟩
+
+theorem KeyName.ne_nil {k : List Char} (h : KeyName k) : k ≠ [] := by
+  obtain ⟨c, cs, rfl, _⟩ := h.head; simp
+
+theorem KeyName.noWs {k : List Char} (h : KeyName k) (s : List Char) : NoWs (k ++ s) := by
+  obtain ⟨c, cs, rfl, hc⟩ := h.head
+  simp only [List.cons_append, NoWs]
+  cases hw : isWs c with
+  | false => rfl
+  | true =>
+    simp only [isWs, Bool.or_eq_true, decide_eq_true_eq] at hw
+    rcases hc with hc | rfl
+    · rcases hw with (rfl | rfl) | rfl <;> simp [isAlpha, isLower, isUpper] at hc
+    · revert hw; decide
+
+theorem reserved_ok {w : List Char} (r : List Char) (hw : w ∈ reservedKws) : P (.ref R.reserved) (w ++ r) r [] := by
+  have nf : ∀ (a b : List Char), a ≠ [] → (¬ a <+: b ++ r) → F (lit a) (b ++ r) := fun a b h1 h2 => Fails.lit a _ h1 h2
+  apply Parses.ref
+  show P e_reserved _ _ _
+  simp only [e_reserved, alts]
+  simp only [reservedKws, List.mem_cons, List.not_mem_nil, or_false] at hw
+  rcases hw with rfl | rfl | rfl | rfl | rfl | rfl
+  · exact Parses.alt_left (Parses.lit _ r)
+  · exact Parses.alt_right (nf _ _ (by simp) (by intro ⟨u, hu⟩; simp at hu)) (Parses.alt_left (Parses.lit _ r))
+  · exact Parses.alt_right (nf _ _ (by simp) (by intro ⟨u, hu⟩; simp at hu))
+      (Parses.alt_right (nf _ _ (by simp) (by intro ⟨u, hu⟩; simp at hu)) (Parses.alt_left (Parses.lit _ r)))
+  · exact Parses.alt_right (nf _ _ (by simp) (by intro ⟨u, hu⟩; simp at hu))
+      (Parses.alt_right (nf _ _ (by simp) (by intro ⟨u, hu⟩; simp at hu))
+      (Parses.alt_right (nf _ _ (by simp) (by intro ⟨u, hu⟩; simp at hu)) (Parses.alt_left (Parses.lit _ r))))
+  · exact Parses.alt_right (nf _ _ (by simp) (by intro ⟨u, hu⟩; simp at hu))
+      (Parses.alt_right (nf _ _ (by simp) (by intro ⟨u, hu⟩; simp at hu))
+      (Parses.alt_right (nf _ _ (by simp) (by intro ⟨u, hu⟩; simp at hu))
+      (Parses.alt_right (nf _ _ (by simp) (by intro ⟨u, hu⟩; simp at hu)) (Parses.alt_left (Parses.lit _ r)))))
+  · exact Parses.alt_right (nf _ _ (by simp) (by intro ⟨u, hu⟩; simp at hu))
+      (Parses.alt_right (nf _ _ (by simp) (by intro ⟨u, hu⟩; simp at hu))
+      (Parses.alt_right (nf _ _ (by simp) (by intro ⟨u, hu⟩; simp at hu))
+      (Parses.alt_right (nf _ _ (by simp) (by intro ⟨u, hu⟩; simp at hu))
+      (Parses.alt_right (nf _ _ (by simp) (by intro ⟨u, hu⟩; simp at hu)) (Parses.lit _ r)))))
+
+theorem fieldExpr_fails_head (c : Char) (t : List Char) (h : isAlpha c = false) : F (.ref R.fieldExpr) (c :: t) := by
+  apply Fails.ref
+  show F e_fieldExpr _
+  simp only [e_fieldExpr, seqs]
+  exact Fails.seq_left (alpha_fails _ (by simpa [NotHead] using h))
+
+/-- `field` on an argument key (field name or reserved name). -/
+theorem key_ok {w r : List Char} (hw : KeyName w) (hr : NotHead isFieldCh r) :
+    P (.ref R.field) (w ++ r) r [.text w, .act (.addField .text)] := by
+  rcases hw with hw | hw
+  · exact field_ok hw hr
+  · obtain ⟨t, ht⟩ := reserved_head hw
+    apply Parses.ref
+    show P e_field _ r _
+    simp only [e_field, seqs, alts]
+    have hf : F (.ref R.fieldExpr) (w ++ r) := by rw [ht]; exact fieldExpr_fails_head '_' _ (by decide)
+    have h1 : P (.cap (.alt (.ref R.fieldExpr) (.ref R.reserved))) (w ++ r) r ([] ++ [.text w]) :=
+      Parses.cap_prefix (Parses.alt_right hf (reserved_ok r hw))
+    simpa using Parses.seq h1 (Parses.act (.addField .text) r)
+
 /-- A literal fails on an input that starts with another character than the literal. -/
 theorem lit_fails_head (w : List Char) (c : Char) (t : List Char) (hw : ∃ a as, w = a :: as ∧ a ≠ c) :
     F (lit w) (c :: t) := by
@@ -774,14 +851,14 @@ theorem value_of_item {s s' : List Char} {evs : List Ev} (h : P (.ref R.item) s 
   exact Parses.alt_left h
 
 /-- `field = value`: the first alternative of `arg`. -/
-theorem arg_eq_ok {key vs rest : List Char} {evs : List Ev} (hk : FieldName key) (hv : NoWs vs)
+theorem arg_eq_ok {key vs rest : List Char} {evs : List Ev} (hk : KeyName key) (hv : NoWs vs)
     (h : P (.ref R.value) vs rest evs) :
     P (.ref R.arg) (key ++ '=' :: vs) rest ([.text key, .act (.addField .text)] ++ evs) := by
   apply Parses.ref
   show P e_arg _ _ _
   simp only [e_arg, alts, seqs, lit]
   refine Parses.alt_left ?_
-  have h1 := field_ok (w := key) (r := '=' :: vs) hk (by simp [NotHead, isFieldCh, isAlnum, isAlpha, isLower, isUpper, isDigit])
+  have h1 := key_ok (w := key) (r := '=' :: vs) hk (by simp [NotHead, isFieldCh, isAlnum, isAlpha, isLower, isUpper, isDigit])
   have h2 : P (.ref R.sp) ('=' :: vs) ('=' :: vs) [] := sp_nil (by simp [NoWs, isWs])
   have h3 : P (.ref R.sp) vs vs [] := sp_nil hv
   simpa using Parses.seq h1 (Parses.seq h2 (Parses.seq (Parses.chr '=' vs) (Parses.seq h3 h)))
@@ -932,7 +1009,7 @@ theorem alpha_of_mem_kw {kw : List Char} (hm : kw ∈ specialKws) {c : Char} (hc
   (specialKws_alpha kw hm).2 c hc
 
 /-- `Call` does not match at the start of a printed argument `key=..` / `key op ..`. -/
-theorem call_fails_key (key rest : List Char) (x : Char) (hk : FieldName key)
+theorem call_fails_field (key rest : List Char) (x : Char) (hk : FieldName key)
     (hx1 : isAlnum x = false) (hx2 : x ≠ '(') : F (.ref R.Call) (key ++ x :: rest) := by
   obtain ⟨c, cs, rfl, hc, hcs⟩ := hk
   have hxa : isAlpha x = false := by
@@ -966,6 +1043,26 @@ theorem call_fails_key (key rest : List Char) (x : Char) (hk : FieldName key)
         exact (List.dropWhile_sublist _).subset this
       simpa [NotHead] using fieldCh_ne_open (hcs y hy)
 
+theorem call_fails_head (c : Char) (u : List Char) (ha : isAlpha c = false) : F (.ref R.Call) (c :: u) := by
+  refine call_fails _ ?_ (Or.inl (ident_fails (by simpa [NotHead] using ha)))
+  intro kw hkw t ht
+  obtain ⟨hne, hal⟩ := specialKws_alpha kw hkw
+  cases kw with
+  | nil => exact absurd rfl hne
+  | cons k0 ks =>
+    simp only [List.cons_append, List.cons.injEq] at ht
+    have := hal k0 (by simp)
+    rw [← ht.1, ha] at this
+    exact absurd this (by simp)
+
+/-- `Call` does not match at an argument `key=..` / `key op ..`. -/
+theorem call_fails_key (key rest : List Char) (x : Char) (hk : KeyName key)
+    (hx1 : isAlnum x = false) (hx2 : x ≠ '(') : F (.ref R.Call) (key ++ x :: rest) := by
+  rcases hk with hk | hk
+  · exact call_fails_field key rest x hk hx1 hx2
+  · obtain ⟨t, rfl⟩ := reserved_head hk
+    exact call_fails_head '_' _ (by decide)
+
 theorem allargs_of_args {s s' : List Char} {evs : List Ev} (hc : F (.ref R.Call) s)
     (h : P (.ref R.args) s s' evs) : P (.ref R.allargs) s s' evs := by
   apply Parses.ref
@@ -984,63 +1081,6 @@ theorem identName_alnum {name : List Char} (h : IdentName name) : ∀ y ∈ name
   rcases hy with rfl | hy
   · simp [isAlnum, hc]
   · exact hcs y hy
-
-/-- The generic alternative of `Call` on `Name(args)` for a name that is not a special keyword. -/
-theorem call_generic_ok (name atext r : List Char) (evs : List Ev) (hn : IdentName name)
-    (hsp : name ∉ specialKws) (hws : NoWs (atext ++ ')' :: r)) (hr : NoWs r)
-    (ha : P (.ref R.allargs) (atext ++ ')' :: r) (')' :: r) evs) :
-    P (.ref R.Call) (name ++ '(' :: (atext ++ ')' :: r)) r
-      ([.text name, .act (.startCall .text)] ++ evs ++ [.act .endCall]) := by
-  have hfail : ∀ kw ∈ specialKws, ∀ t, name ++ '(' :: (atext ++ ')' :: r) = kw ++ t → NotHead (· = '(') t := by
-    intro kw hm t e
-    have hxkw : '(' ∉ kw := fun hmem => by
-      have := alpha_of_mem_kw hm hmem; revert this; decide
-    obtain ⟨u, hu1, hu2⟩ := append_eq_split kw t name '(' _ hxkw e.symm
-    subst hu2
-    cases u with
-    | nil => exact absurd (by rw [hu1]; simpa using hm) hsp
-    | cons y ys =>
-      have hy : y ∈ name := by rw [hu1]; simp
-      simpa [NotHead] using alnum_ne_open (identName_alnum hn y hy)
-  have hk := fun kw (hm : kw ∈ specialKws) => (specialKws_alpha kw hm).1
-  apply Parses.ref
-  show P e_Call _ _ _
-  simp only [e_Call, alts, seqs]
-  refine Parses.alt_right (special_fails _ _ _ _ (hk _ (by simp [specialKws])) (hfail _ (by simp [specialKws])))
-    (Parses.alt_right (special_fails _ _ _ _ (hk _ (by simp [specialKws])) (hfail _ (by simp [specialKws])))
-    (Parses.alt_right (special_fails _ _ _ _ (hk _ (by simp [specialKws])) (hfail _ (by simp [specialKws])))
-    (Parses.alt_right (special_fails _ _ _ _ (hk _ (by simp [specialKws])) (hfail _ (by simp [specialKws])))
-    (Parses.alt_right (special_fails _ _ _ _ (hk _ (by simp [specialKws])) (hfail _ (by simp [specialKws])))
-    (Parses.alt_right (special_fails _ _ _ _ (hk _ (by simp [specialKws])) (hfail _ (by simp [specialKws])))
-    (Parses.alt_right (special_fails _ _ _ _ (hk _ (by simp [specialKws])) (hfail _ (by simp [specialKws])))
-    (Parses.alt_right (special_fails _ _ _ _ (hk _ (by simp [specialKws])) (hfail _ (by simp [specialKws])))
-    (Parses.alt_right (special_fails _ _ _ _ (hk _ (by simp [specialKws])) (hfail _ (by simp [specialKws])))
-    ?_))))))))
-  have h1 : P (.cap (.ref R.IDENT)) (name ++ '(' :: (atext ++ ')' :: r)) ('(' :: (atext ++ ')' :: r))
-      ([] ++ [.text name]) :=
-    Parses.cap_prefix (ident_ok hn (by simp [NotHead, isAlnum, isAlpha, isLower, isUpper, isDigit]))
-  have h2 := Parses.act (rule := Gen.rule) (.startCall .text) ('(' :: (atext ++ ')' :: r))
-  have h3 := open_ok hws
-  have h4 : P (.opt (.ref R.comma)) (')' :: r) (')' :: r) [] :=
-    Parses.opt_none (comma_fails (by simp [NoWs, isWs]) (by simp [NotHead]))
-  have h5 := close_ok hr
-  have h6 := Parses.act (rule := Gen.rule) .endCall r
-  have h := Parses.seq h1 (Parses.seq h2 (Parses.seq h3 (Parses.seq ha (Parses.seq h4 (Parses.seq h5 h6)))))
-  simpa using h
-
-/-- `Calls` on the text of one call. -/
-theorem calls_single (ctext : List Char) (evs : List Ev) (hws : NoWs ctext)
-    (h : P (.ref R.Call) ctext [] evs) : P (.ref R.Calls) ctext [] evs := by
-  apply Parses.ref
-  show P e_Calls _ _ _
-  simp only [e_Calls, seqs]
-  have h1 : P (.ref R.sp) ctext ctext [] := sp_nil hws
-  have hsp0 : P (.ref R.sp) [] [] [] := sp_nil trivial
-  have hstar : P (.star (.seq (.ref R.Call) (.ref R.sp))) ctext [] (evs ++ [] ++ []) :=
-    Parses.star_cons (Parses.seq h hsp0) (Parses.star_nil (Fails.seq_left call_fails_nil))
-  have hend : P (.notP .any) [] [] [] := Parses.notP Fails.any_nil
-  simpa using Parses.seq h1 (Parses.seq hstar hend)
-
 
 /-- `item` fails on a text that starts with a character no literal can start with. -/
 theorem item_fails_punct (c : Char) (t : List Char)
@@ -1149,12 +1189,12 @@ theorem opText_head (op : Op) (hop : op ∈ cmpOps) :
 
 /-- `field op value`: the second alternative of `arg` (the first one fails). -/
 theorem arg_cond_ok {key vs rest : List Char} {evs : List Ev} (op : Op) (hop : op ∈ cmpOps)
-    (hk : FieldName key) (hv : NoWs vs) (h : P (.ref R.value) vs rest evs) :
+    (hk : KeyName key) (hv : NoWs vs) (h : P (.ref R.value) vs rest evs) :
     P (.ref R.arg) (key ++ ' ' :: (opText op ++ ' ' :: vs)) rest
       ([.text key, .act (.addField .text), .act (.setCond op)] ++ evs) := by
   obtain ⟨c, t, hct, hcws, hceq⟩ := opText_head op hop
   have hnw : NoWs (opText op ++ ' ' :: vs) := by rw [hct]; exact hcws
-  have h1 := field_ok (w := key) (r := ' ' :: (opText op ++ ' ' :: vs)) hk
+  have h1 := key_ok (w := key) (r := ' ' :: (opText op ++ ' ' :: vs)) hk
     (by simp [NotHead, isFieldCh, isAlnum, isAlpha, isLower, isUpper, isDigit])
   have h2 : P (.ref R.sp) (' ' :: (opText op ++ ' ' :: vs)) (opText op ++ ' ' :: vs) [] := sp_one hnw
   apply Parses.ref
@@ -1429,516 +1469,278 @@ theorem exec_list (xs : List Int) (hx : ∀ x ∈ xs, minInt64 ≤ x ∧ x ≤ m
     simp [stepAct, endList, e2, e3]
   exact exec_act_ok evs he
 
+/-! ### The special-form names whose dedicated rule cannot match a printed call
 
-/-- The int64 elements of a list value. -/
-def intsOf : List Val → List Int
-  | [] => []
-  | .int i :: rest => i :: intsOf rest
-  | _ :: rest => intsOf rest
+`Call.String` prints every call as `Name(children, key=value, ..)`.  For the names `Set`,
+`SetRowAttrs`, `SetColumnAttrs`, `Clear`, `TopN`, `Rows` the dedicated alternative of `Call` starts
+with a positional `col` / `posfield` and fails on such a text, so the generic alternative reads it.
+`Range` is in when the printed body begins with a condition `key op value` or with a child call (its
+alternative needs `field = value` first).  (`ClearRow` and `Store` have alternatives that match a
+printed call of their usual shape: left out.) -/
 
-theorem intsOf_map (xs : List Int) : intsOf (xs.map Val.int) = xs := by
-  induction xs with
-  | nil => rfl
-  | cons x rest ih => simp [intsOf, ih]
+def wideKws : List (List Char) :=
+  [['S', 'e', 't'], ['S', 'e', 't', 'R', 'o', 'w', 'A', 't', 't', 'r', 's'],
+   ['S', 'e', 't', 'C', 'o', 'l', 'u', 'm', 'n', 'A', 't', 't', 'r', 's'], ['C', 'l', 'e', 'a', 'r'],
+   ['T', 'o', 'p', 'N'], ['R', 'o', 'w', 's']]
 
-theorem fmtVals_ints (isPrint : Char → Bool) (xs : List Int) :
-    fmtVals isPrint (xs.map Val.int) = xs.map intDigits := by
-  induction xs with
-  | nil => simp [fmtVals]
-  | cons x rest ih => simp [fmtVals, fmtVal, ih]
+/-- The names left out: their dedicated alternative can match a printed call. -/
+def hardKws : List (List Char) :=
+  [['C', 'l', 'e', 'a', 'r', 'R', 'o', 'w'], ['S', 't', 'o', 'r', 'e']]
 
-/-- A list value of the fragment: a non-empty list of int64. -/
-def IntList (vs : List Val) : Prop :=
-  ∃ xs : List Int, vs = xs.map Val.int ∧ xs ≠ [] ∧ ∀ x ∈ xs, minInt64 ≤ x ∧ x ≤ maxInt64
+def rangeKw : List Char := ['R', 'a', 'n', 'g', 'e']
 
-/-- The values of the flat fragment proved so far: int64, nil, bool, string, and a comparison
-(`==  !=  <  <=  >  >=`) with an int64.  A string is excluded only when its quoted form begins like a
-timestamp (four digits and a dash): then another alternative of `item` reads it. -/
-def SimpleVal (isPrint : Char → Bool) : Val → Prop
-  | .int i => minInt64 ≤ i ∧ i ≤ maxInt64
-  | .null => True
-  | .bool _ => True
-  | .str bs => (∀ b ∈ bs, b < 256) ∧ tsPrefix5 (quoteBody isPrint bs ++ ['"']) = false
-  | .cond op (.int i) => op ∈ cmpOps ∧ minInt64 ≤ i ∧ i ≤ maxInt64
-  | .list vs => IntList vs
-  | .cond op (.list vs) => op ∈ cmpOps ∧ IntList vs
-  | _ => False
+/-- The call names of the proved fragment. -/
+def NameOk (name : List Char) : Prop := name ∉ hardKws
 
-/-- The events the grammar records for a printed value. -/
-def evVal (isPrint : Char → Bool) : Val → List Ev
-  | .int i => [.text (intDigits i), .act .addNumVal]
-  | .null => [.act (.addVal .null)]
-  | .bool b => [.act (.addVal (.bool b))]
-  | .str bs => [.text (quote isPrint bs), .act .addQuotedVal]
-  | .cond op (.int i) => [.act (.setCond op), .text (intDigits i), .act .addNumVal]
-  | .list vs => .act .startList :: ((intsOf vs).flatMap evIntItem ++ [.act .endList])
-  | .cond op (.list vs) => .act (.setCond op) :: .act .startList :: ((intsOf vs).flatMap evIntItem ++ [.act .endList])
-  | _ => []
+instance (name : List Char) : Decidable (NameOk name) := by unfold NameOk; infer_instance
 
-def evArg (isPrint : Char → Bool) (kv : Key × Val) : List Ev :=
-  [.text kv.1, .act (.addField .text)] ++ evVal isPrint kv.2
+theorem nameOk_cases {name : List Char} (h : NameOk name) :
+    name ∉ specialKws ∨ name ∈ wideKws ∨ name = rangeKw := by
+  by_cases hs : name ∈ specialKws
+  · right
+    simp only [specialKws, List.mem_cons, List.not_mem_nil, or_false] at hs
+    simp only [NameOk, hardKws, List.mem_cons, List.not_mem_nil, or_false, not_or] at h
+    rcases hs with rfl | rfl | rfl | rfl | rfl | rfl | rfl | rfl | rfl <;>
+      first | (left; simp [wideKws]; done) | (right; rfl) | exact absurd rfl h.1 | exact absurd rfl h.2
+  · exact Or.inl hs
 
-/-- Executing the events of `key=value` stores the value under the key. -/
-theorem exec_arg (isPrint : Char → Bool) (hnl : isPrint '\n' = false) (k : Key) (v : Val)
-    (hv : SimpleVal isPrint v) (hk : k ≠ [])
-    (q : QState) (e : Elem) (rest : List Elem) (evs : List Ev)
-    (hq : q.stack = e :: rest) (he : ArgState e) (hl : lookup k e.args = none) :
-    ∃ t, exec (evArg isPrint (k, v) ++ evs) q =
-      exec evs { q with text := t, stack := { e with args := insert k v e.args } :: rest } := by
-  obtain ⟨he1, he2, he3⟩ := he
-  simp only [evArg, List.cons_append, List.nil_append]
-  rw [exec_field k q e rest _ hq he1]
-  cases v with
-  | int i =>
-    refine ⟨intDigits i, ?_⟩
-    simp only [evVal, List.cons_append, List.nil_append]
-    rw [exec_text]
-    have hs : stepAct { q with text := intDigits i, stack := { e with lastField := k } :: rest } .addNumVal =
-        .ok { q with text := intDigits i, stack := { e with args := insert k (.int i) e.args } :: rest } := by
-      cases e
-      simp_all [stepAct, addNumVal, numVal_intDigits i hv.1 hv.2, bind, Except.bind]
-    exact exec_act_ok evs hs
-  | null =>
-    refine ⟨k, ?_⟩
-    simp only [evVal, List.cons_append, List.nil_append]
-    have hs : stepAct { q with text := k, stack := { e with lastField := k } :: rest } (.addVal .null) =
-        .ok { q with text := k, stack := { e with args := insert k .null e.args } :: rest } := by
-      cases e
-      simp_all [stepAct, addVal]
-    exact exec_act_ok evs hs
-  | bool b =>
-    refine ⟨k, ?_⟩
-    simp only [evVal, List.cons_append, List.nil_append]
-    have hs : stepAct { q with text := k, stack := { e with lastField := k } :: rest } (.addVal (.bool b)) =
-        .ok { q with text := k, stack := { e with args := insert k (.bool b) e.args } :: rest } := by
-      cases e
-      simp_all [stepAct, addVal]
-    exact exec_act_ok evs hs
-  | str bs =>
-    refine ⟨quote isPrint bs, ?_⟩
-    simp only [evVal, List.cons_append, List.nil_append]
-    rw [exec_text]
-    have hs : stepAct { q with text := quote isPrint bs, stack := { e with lastField := k } :: rest } .addQuotedVal =
-        .ok { q with text := quote isPrint bs, stack := { e with args := insert k (.str bs) e.args } :: rest } := by
-      cases e
-      simp_all [stepAct, unquote_quote isPrint hnl bs hv.1, addVal]
-    exact exec_act_ok evs hs
-  | uint n => exact absurd hv (by simp [SimpleVal])
-  | float t => exact absurd hv (by simp [SimpleVal])
-  | list vs =>
-    obtain ⟨xs, rfl, hxne, hxr⟩ := hv
-    simp only [evVal, intsOf_map, List.cons_append, List.append_assoc, List.nil_append]
-    obtain ⟨t, ht⟩ := exec_list xs hxr k hk { q with text := k, stack := { e with lastField := k } :: rest }
-      { e with lastField := k } rest evs rfl rfl he2 hl
-    refine ⟨t, ?_⟩
-    rw [ht]
-    congr 1
-    cases e
-    simp_all [wrapList]
-  | ints xs => exact absurd hv (by simp [SimpleVal])
-  | uints xs => exact absurd hv (by simp [SimpleVal])
-  | cond op w =>
-    cases w with
-    | int i =>
-      obtain ⟨hop, h1, h2⟩ := hv
-      have hne : op ≠ .ILLEGAL := by
-        intro e; subst e; simp [cmpOps] at hop
-      refine ⟨intDigits i, ?_⟩
-      simp only [evVal, List.cons_append, List.nil_append]
-      have hs1 : stepAct { q with text := k, stack := { e with lastField := k } :: rest } (.setCond op) =
-          .ok { q with text := k, stack := { e with lastField := k, lastCond := op } :: rest } := by
-        simp [stepAct, setCond]
-      rw [exec_act_ok _ hs1, exec_text]
-      have hs : stepAct { q with text := intDigits i, stack := { e with lastField := k, lastCond := op } :: rest } .addNumVal =
-          .ok { q with text := intDigits i, stack := { e with args := insert k (.cond op (.int i)) e.args } :: rest } := by
-        cases e
-        simp_all [stepAct, addNumVal, numVal_intDigits i h1 h2, bind, Except.bind]
-      exact exec_act_ok evs hs
-    | null => exact absurd hv (by simp [SimpleVal])
-    | bool b => exact absurd hv (by simp [SimpleVal])
-    | uint n => exact absurd hv (by simp [SimpleVal])
-    | float t => exact absurd hv (by simp [SimpleVal])
-    | str bs => exact absurd hv (by simp [SimpleVal])
-    | list vs =>
-      obtain ⟨hop, xs, rfl, hxne, hxr⟩ := hv
-      have hne : op ≠ .ILLEGAL := by
-        intro e'; subst e'; simp [cmpOps] at hop
-      simp only [evVal, intsOf_map, List.cons_append, List.append_assoc, List.nil_append]
-      have hs1 : stepAct { q with text := k, stack := { e with lastField := k } :: rest } (.setCond op) =
-          .ok { q with text := k, stack := { e with lastField := k, lastCond := op } :: rest } := by
-        simp [stepAct, setCond]
-      rw [exec_act_ok _ hs1]
-      obtain ⟨t, ht⟩ := exec_list xs hxr k hk
-        { q with text := k, stack := { e with lastField := k, lastCond := op } :: rest }
-        { e with lastField := k, lastCond := op } rest evs rfl rfl he2 hl
-      refine ⟨t, ?_⟩
-      rw [ht]
-      congr 1
-      cases e
-      simp_all [wrapList]
-    | ints xs => exact absurd hv (by simp [SimpleVal])
-    | uints xs => exact absurd hv (by simp [SimpleVal])
-    | cond op2 v2 => exact absurd hv (by simp [SimpleVal])
-    | call c => exact absurd hv (by simp [SimpleVal])
-  | call c => exact absurd hv (by simp [SimpleVal])
+/-- The call does not use the name `Range` with a first argument `key=value` and no child. -/
+def RangeArgs (name : List Char) (args : List (Key × Val)) (children : List Call) : Prop :=
+  name = rangeKw → children ≠ [] ∨ ∃ k op v rest, args = (k, .cond op v) :: rest
 
+/-- The printed body begins with a child call or with a condition `key op ..`. -/
+def RangeBody (body : List Char) : Prop :=
+  ∃ k x rest, body = k ++ x :: rest ∧ KeyName k ∧
+    (x = '(' ∨ (x = ' ' ∧ ∃ op, op ∈ cmpOps ∧ ∃ tl, rest = opText op ++ ' ' :: tl))
 
-theorem ltKey_irrefl (k : Key) : ltKey k k = false := by
-  induction k with
-  | nil => rfl
-  | cons c cs ih => simp [ltKey, ih, Char.lt_irrefl]
+/-- The printed body of a call begins with a field name / identifier followed by `=`, a space and an
+operator, or `(`: in any case by something that is not a comma (possibly after white space). -/
+def FirstKey (body : List Char) : Prop :=
+  ∃ k x rest, body = k ++ x :: rest ∧ KeyName k ∧ isFieldCh x = false ∧ x ≠ ')' ∧ F (.ref R.comma) (x :: rest)
 
-theorem ltKey_asymm (a b : Key) (h : ltKey a b = true) : ltKey b a = false := by
-  induction a generalizing b with
-  | nil => cases b <;> simp [ltKey] at h ⊢
-  | cons x xs ih =>
-    cases b with
-    | nil => simp [ltKey] at h
-    | cons y ys =>
-      simp only [ltKey, Bool.or_eq_true, decide_eq_true_eq, Bool.and_eq_true] at h
-      simp only [ltKey, Bool.or_eq_false_iff, decide_eq_false_iff_not, Bool.and_eq_false_iff]
-      rcases h with h | ⟨rfl, h⟩
-      · exact ⟨Char.lt_asymm h, Or.inl (fun e => by subst e; exact Char.lt_irrefl _ h)⟩
-      · exact ⟨Char.lt_irrefl _, Or.inr (ih ys h)⟩
+def SpecialFree (name body : List Char) : Prop :=
+  name ∉ specialKws ∨ (name ∈ wideKws ∧ FirstKey body) ∨ (name = rangeKw ∧ RangeBody body)
 
-theorem ltKey_ne (a b : Key) (h : ltKey a b = true) : a ≠ b := by
-  intro e; subst e; rw [ltKey_irrefl] at h; exact absurd h (by simp)
+theorem comma_fails_sp {r : List Char} (h : NoWs r) (hc : NotHead (· = ',') r) : F (.ref R.comma) (' ' :: r) := by
+  apply Fails.ref
+  show F e_comma _
+  simp only [e_comma, seqs, lit]
+  refine Fails.seq_right (sp_one h) (Fails.seq_left ?_)
+  cases r with
+  | nil => exact Fails.chr_nil _
+  | cons c t => exact Fails.chr_ne t (by simpa [NotHead] using hc)
 
-/-- Inserting a key greater than every key of the map appends it. -/
-theorem insert_append (k : Key) (v : Val) (m : List (Key × Val))
-    (h : ∀ p ∈ m, ltKey p.1 k = true) : insert k v m = m ++ [(k, v)] := by
-  induction m with
-  | nil => rfl
-  | cons p rest ih =>
-    obtain ⟨k0, v0⟩ := p
-    have h0 : ltKey k0 k = true := h (k0, v0) (by simp)
-    have hne : k0 ≠ k := ltKey_ne _ _ h0
-    have hlt : ltKey k k0 = false := ltKey_asymm _ _ h0
-    simp only [insert, hne, hlt, if_false, Bool.false_eq_true, List.cons_append]
-    rw [ih (fun p hp => h p (by simp [hp]))]
+theorem firstKey_of_call (name s : List Char) (hn : IdentName name) : FirstKey (name ++ '(' :: s) := by
+  obtain ⟨c, cs, rfl, hc, hcs⟩ := hn
+  refine ⟨c :: cs, '(', s, rfl, Or.inl ⟨c, cs, rfl, hc, fun y hy => ?_⟩, by decide, by decide,
+    comma_fails (by simp [NoWs, isWs]) (by simp [NotHead])⟩
+  have := hcs y hy
+  simp [isFieldCh, this]
 
-/-- Keys strictly increasing (what `Call.String` prints and what a Go map holds: distinct keys). -/
-def SortedKeys : List (Key × Val) → Prop
-  | [] => True
-  | [_] => True
-  | a :: b :: rest => ltKey a.1 b.1 = true ∧ SortedKeys (b :: rest)
-
-theorem ltKey_trans (a b c : Key) (h1 : ltKey a b = true) (h2 : ltKey b c = true) : ltKey a c = true := by
-  induction a generalizing b c with
-  | nil =>
-    cases c with
-    | nil => cases b <;> simp [ltKey] at h1 h2
-    | cons z zs => rfl
-  | cons x xs ih =>
-    cases b with
-    | nil => simp [ltKey] at h1
-    | cons y ys =>
-      cases c with
-      | nil => simp [ltKey] at h2
-      | cons z zs =>
-        simp only [ltKey, Bool.or_eq_true, decide_eq_true_eq, Bool.and_eq_true] at h1 h2 ⊢
-        rcases h1 with h1 | ⟨rfl, h1⟩
-        · rcases h2 with h2 | ⟨rfl, h2⟩
-          · exact Or.inl (Char.lt_trans h1 h2)
-          · exact Or.inl h1
-        · rcases h2 with h2 | ⟨rfl, h2⟩
-          · exact Or.inl h2
-          · exact Or.inr ⟨rfl, ih ys zs h1 h2⟩
-
-theorem sorted_head_lt (a : Key × Val) (rest : List (Key × Val)) (h : SortedKeys (a :: rest)) :
-    ∀ p ∈ rest, ltKey a.1 p.1 = true := by
-  induction rest generalizing a with
-  | nil => simp
-  | cons b rest' ih =>
-    obtain ⟨h1, h2⟩ := h
-    intro p hp
-    simp only [List.mem_cons] at hp
-    rcases hp with rfl | hp
-    · exact h1
-    · exact ltKey_trans _ _ _ h1 (ih b h2 p hp)
-
-theorem sorted_tail (a : Key × Val) (rest : List (Key × Val)) (h : SortedKeys (a :: rest)) : SortedKeys rest := by
-  cases rest with
-  | nil => trivial
-  | cons b r => exact h.2
-
-/-- Building the map from strictly sorted entries gives the entries back. -/
-theorem foldl_insert_sorted (as acc : List (Key × Val)) (hs : SortedKeys as)
-    (hacc : ∀ p ∈ acc, ∀ a ∈ as, ltKey p.1 a.1 = true) :
-    as.foldl (fun m kv => insert kv.1 kv.2 m) acc = acc ++ as := by
-  induction as generalizing acc with
-  | nil => simp
-  | cons a rest ih =>
-    simp only [List.foldl_cons]
-    rw [insert_append a.1 a.2 acc (fun p hp => hacc p hp a (by simp))]
-    rw [ih (acc ++ [(a.1, a.2)]) (sorted_tail a rest hs)]
-    · simp
-    · intro p hp b hb
-      simp only [List.mem_append, List.mem_singleton] at hp
-      rcases hp with hp | rfl
-      · exact hacc p hp b (by simp [hb])
-      · exact sorted_head_lt a rest hs b hb
-
-
-theorem fieldName_ne_nil {k : Key} (h : FieldName k) : k ≠ [] := by
-  obtain ⟨c, cs, rfl, _, _⟩ := h; simp
-
-/-- Executing the events of all arguments builds the argument map. -/
-theorem exec_args (isPrint : Char → Bool) (hnl : isPrint '\n' = false) (as : List (Key × Val))
-    (hv : ∀ kv ∈ as, FieldName kv.1 ∧ SimpleVal isPrint kv.2) (hs : SortedKeys as)
-    (q : QState) (e : Elem) (rest : List Elem) (evs : List Ev)
-    (hq : q.stack = e :: rest) (he : ArgState e) (hl : ∀ kv ∈ as, lookup kv.1 e.args = none) :
-    ∃ t, exec (as.flatMap (evArg isPrint) ++ evs) q =
-      exec evs { q with text := t,
-                        stack := { e with args := as.foldl (fun m kv => insert kv.1 kv.2 m) e.args } :: rest } := by
-  induction as generalizing q e with
-  | nil =>
-    refine ⟨q.text, ?_⟩
-    simp only [List.flatMap_nil, List.nil_append, List.foldl_nil]
-    congr 1
-    cases q; cases e; simp_all
-  | cons a rest' ih =>
-    obtain ⟨k, v⟩ := a
-    obtain ⟨hk, hsv⟩ := hv (k, v) (by simp)
-    obtain ⟨t1, h1⟩ := exec_arg isPrint hnl k v hsv (fieldName_ne_nil hk) q e rest
-      (rest'.flatMap (evArg isPrint) ++ evs) hq he (hl (k, v) (by simp))
-    simp only [List.flatMap_cons, List.append_assoc]
-    rw [h1]
-    have hlt := sorted_head_lt (k, v) rest' hs
-    obtain ⟨t2, h2⟩ := ih (fun kv hkv => hv kv (by simp [hkv])) (sorted_tail _ _ hs)
-      { q with text := t1, stack := { e with args := insert k v e.args } :: rest }
-      { e with args := insert k v e.args } rfl he
-      (fun kv hkv => by
-        have hne : kv.1 ≠ k := fun e' => by
-          have := hlt kv hkv
-          rw [e', ltKey_irrefl] at this; exact absurd this (by simp)
-        simp only [lookup_insert, hne, if_false]
-        exact hl kv (by simp [hkv]))
-    exact ⟨t2, h2⟩
-
-
-/-- `key=value` as `Call.String` prints it. -/
-def argText (isPrint : Char → Bool) (kv : Key × Val) : List Char :=
-  match kv.2 with
-  | .cond op v => kv.1 ++ ' ' :: (opText op ++ ' ' :: fmtVal isPrint v)
-  | v => kv.1 ++ '=' :: fmtVal isPrint v
-
-theorem argText_head (isPrint : Char → Bool) (kv : Key × Val) :
-    ∃ x rest, argText isPrint kv = kv.1 ++ x :: rest ∧ (x = '=' ∨ x = ' ') := by
-  obtain ⟨k, v⟩ := kv
-  cases v <;> simp [argText]
-
-theorem fmtArgs_simple (isPrint : Char → Bool) (as : List (Key × Val))
-    (h : ∀ kv ∈ as, SimpleVal isPrint kv.2) : fmtArgs isPrint as = as.map (argText isPrint) := by
-  induction as with
-  | nil => simp [fmtArgs]
-  | cons a rest ih =>
-    obtain ⟨k, v⟩ := a
-    have hv := h (k, v) (by simp)
-    have ih' := ih (fun kv hkv => h kv (by simp [hkv]))
-    cases v <;> simp_all [fmtArgs, argText, SimpleVal]
-
-theorem fmtCall_flat (isPrint : Char → Bool) (name : List Char) (as : List (Key × Val)) (hn : name ≠ [])
-    (h : ∀ kv ∈ as, SimpleVal isPrint kv.2) :
-    fmtCall isPrint (.mk name as []) =
-      name ++ '(' :: (joinWith [',', ' '] (as.map (argText isPrint)) ++ [')']) := by
-  simp [fmtCall, fmtCalls, joinWith, hn, fmtArgs_simple isPrint as h]
-
-/-- A printed simple argument is read by `arg` whatever delimiter follows. -/
-theorem parg_ok (isPrint : Char → Bool) (kv : Key × Val) (hk : FieldName kv.1) (hv : SimpleVal isPrint kv.2) :
-    PArg.Ok ⟨argText isPrint kv, evArg isPrint kv⟩ := by
-  obtain ⟨k, v⟩ := kv
-  obtain ⟨c, cs, rfl, hc, hcs⟩ := hk
-  have hk' : FieldName (c :: cs) := ⟨c, cs, rfl, hc, hcs⟩
-  have hcws : isWs c = false := by
-    cases hw : isWs c with
+/-- `col` fails on a text that begins with a letter. -/
+theorem col_fails_alpha (c : Char) (t : List Char) (hc : isAlpha c = true) : F (.ref R.col) (c :: t) := by
+  have hd : isDigit c = false := by
+    cases hd : isDigit c with
     | false => rfl
     | true =>
-      simp only [isWs, Bool.or_eq_true, decide_eq_true_eq] at hw
-      rcases hw with (rfl | rfl) | rfl <;> simp [isAlpha, isLower, isUpper] at hc
-  have hhead := argText_head isPrint (c :: cs, v)
-  obtain ⟨x0, tl0, hx0, _⟩ := hhead
-  refine ⟨by rw [hx0]; simpa [NoWs] using hcws, by rw [hx0]; simp, ?_⟩
-  intro d r hd
-  have hdel : Delim d := by rcases hd with rfl | rfl <;> simp [Delim]
-  simp only [argText, evArg]
-  cases v with
-  | int i =>
-    obtain ⟨_, hne, hall⟩ := natDigits_spec i.natAbs
-    have hitem := item_int_ok (decide (i < 0)) (natDigits i.natAbs) r d hne hall hdel
-    rw [← intDigits_shape] at hitem
-    have hnw : NoWs (intDigits i ++ d :: r) := by
-      obtain ⟨x, t, hx, hxc⟩ := num_text_head (decide (i < 0)) (natDigits i.natAbs) (d :: r) hne hall
-      rw [intDigits_shape, hx]
-      rcases hxc with rfl | hxd
-      · simp [NoWs, isWs]
-      · simp only [NoWs]
-        cases hw : isWs x with
-        | false => rfl
-        | true =>
-          simp only [isWs, Bool.or_eq_true, decide_eq_true_eq] at hw
-          rcases hw with (rfl | rfl) | rfl <;> simp [isDigit] at hxd
-    have := arg_eq_ok hk' hnw (value_of_item hitem)
-    simpa [fmtVal, evVal] using this
-  | null =>
-    have hitem := item_null_ok d r hd
-    have := arg_eq_ok (vs := ['n', 'u', 'l', 'l'] ++ d :: r) hk' (by simp [NoWs, isWs]) (value_of_item hitem)
-    simpa [fmtVal, evVal] using this
-  | bool b =>
-    cases b with
-    | true =>
-      have hitem := item_true_ok d r hd
-      have := arg_eq_ok (vs := ['t', 'r', 'u', 'e'] ++ d :: r) hk' (by simp [NoWs, isWs]) (value_of_item hitem)
-      simpa [fmtVal, evVal] using this
-    | false =>
-      have hitem := item_false_ok d r hd
-      have := arg_eq_ok (vs := ['f', 'a', 'l', 's', 'e'] ++ d :: r) hk' (by simp [NoWs, isWs]) (value_of_item hitem)
-      simpa [fmtVal, evVal] using this
-  | str bs =>
-    have hitem := item_dq_ok (quoteBody isPrint bs) r d (dqOk_quoteBody isPrint bs) hv.2 hdel
-    have := arg_eq_ok (vs := '"' :: (quoteBody isPrint bs ++ '"' :: d :: r)) hk' (by simp [NoWs, isWs]) (value_of_item hitem)
-    simpa [fmtVal, evVal, quote] using this
-  | uint n => exact absurd hv (by simp [SimpleVal])
-  | float t => exact absurd hv (by simp [SimpleVal])
-  | list vs =>
-    obtain ⟨xs, rfl, hxne, hxr⟩ := hv
-    have hval := value_list_ok xs hxne d r hd
-    have := arg_eq_ok (vs := '[' :: (joinWith [','] (xs.map intDigits) ++ ']' :: d :: r)) hk'
-      (by simp [NoWs, isWs]) hval
-    simpa [fmtVal, fmtVals_ints, evVal, intsOf_map, List.append_assoc] using this
-  | ints xs => exact absurd hv (by simp [SimpleVal])
-  | uints xs => exact absurd hv (by simp [SimpleVal])
-  | cond op w =>
-    cases w with
-    | int i =>
-      obtain ⟨hop, h1, h2⟩ := hv
-      obtain ⟨_, hne, hall⟩ := natDigits_spec i.natAbs
-      have hitem := item_int_ok (decide (i < 0)) (natDigits i.natAbs) r d hne hall hdel
-      rw [← intDigits_shape] at hitem
-      have hnw : NoWs (intDigits i ++ d :: r) := by
-        obtain ⟨x, t, hx, hxc⟩ := num_text_head (decide (i < 0)) (natDigits i.natAbs) (d :: r) hne hall
-        rw [intDigits_shape, hx]
-        rcases hxc with rfl | hxd
-        · simp [NoWs, isWs]
-        · simp only [NoWs]
-          cases hw : isWs x with
-          | false => rfl
-          | true =>
-            simp only [isWs, Bool.or_eq_true, decide_eq_true_eq] at hw
-            rcases hw with (rfl | rfl) | rfl <;> simp [isDigit] at hxd
-      have := arg_cond_ok op hop hk' hnw (value_of_item hitem)
-      simpa [fmtVal, evVal] using this
-    | null => exact absurd hv (by simp [SimpleVal])
-    | bool b => exact absurd hv (by simp [SimpleVal])
-    | uint n => exact absurd hv (by simp [SimpleVal])
-    | float t => exact absurd hv (by simp [SimpleVal])
-    | str bs => exact absurd hv (by simp [SimpleVal])
-    | list vs =>
-      obtain ⟨hop, xs, rfl, hxne, hxr⟩ := hv
-      have hval := value_list_ok xs hxne d r hd
-      have := arg_cond_ok op hop hk' (vs := '[' :: (joinWith [','] (xs.map intDigits) ++ ']' :: d :: r))
-        (by simp [NoWs, isWs]) hval
-      simpa [fmtVal, fmtVals_ints, evVal, intsOf_map, List.append_assoc] using this
-    | ints xs => exact absurd hv (by simp [SimpleVal])
-    | uints xs => exact absurd hv (by simp [SimpleVal])
-    | cond op2 v2 => exact absurd hv (by simp [SimpleVal])
-    | call c => exact absurd hv (by simp [SimpleVal])
-  | call c => exact absurd hv (by simp [SimpleVal])
+      simp only [isDigit, Bool.and_eq_true, decide_eq_true_eq] at hd
+      simp only [isAlpha, isLower, isUpper, Bool.or_eq_true, Bool.and_eq_true, decide_eq_true_eq] at hc
+      rcases hc with ⟨h1, _⟩ | ⟨h1, _⟩
+      · exact absurd (Char.le_trans h1 hd.2) (by decide)
+      · exact absurd (Char.le_trans h1 hd.2) (by decide)
+  have hq1 : c ≠ '\'' := by intro e; subst e; simp [isAlpha, isLower, isUpper] at hc
+  have hq2 : c ≠ '"' := by intro e; subst e; simp [isAlpha, isLower, isUpper] at hc
+  have h19 : ¬ ('1' ≤ c ∧ c ≤ '9') := by
+    intro h
+    have : isDigit c = true := by
+      simp only [isDigit, Bool.and_eq_true, decide_eq_true_eq]
+      exact ⟨Char.le_trans (by decide) h.1, h.2⟩
+    rw [hd] at this; exact absurd this (by simp)
+  have h0 : c ≠ '0' := by intro e; subst e; simp [isDigit] at hd
+  apply Fails.ref
+  show F e_col _
+  simp only [e_col, alts, seqs, lit]
+  refine Fails.alt (Fails.seq_left (Fails.cap ?_))
+    (Fails.alt (Fails.seq_left (Fails.chr_ne _ hq1)) (Fails.seq_left (Fails.chr_ne _ hq2)))
+  apply Fails.ref
+  show F e_uint _
+  simp only [e_uint, alts, seqs]
+  exact Fails.alt (Fails.seq_left (Fails.rng_ne _ h19)) (Fails.chr_ne _ h0)
 
+theorem col_fails_us (t : List Char) : F (.ref R.col) ('_' :: t) := by
+  apply Fails.ref
+  show F e_col _
+  simp only [e_col, alts, seqs, lit]
+  refine Fails.alt (Fails.seq_left (Fails.cap ?_))
+    (Fails.alt (Fails.seq_left (Fails.chr_ne _ (by decide))) (Fails.seq_left (Fails.chr_ne _ (by decide))))
+  apply Fails.ref
+  show F e_uint _
+  simp only [e_uint, alts, seqs]
+  exact Fails.alt (Fails.seq_left (Fails.rng_ne _ (by decide))) (Fails.chr_ne _ (by decide))
 
-/-- The flat fragment: `Name(k1=v1, ..)` with a generic name, at least one argument, field-name
-keys in strictly increasing order and simple values. -/
-structure FlatCall (isPrint : Char → Bool) (name : List Char) (args : List (Key × Val)) : Prop where
-  name_ok : IdentName name
-  not_special : name ∉ specialKws
-  nonempty : args ≠ []
-  args_ok : ∀ kv ∈ args, FieldName kv.1 ∧ SimpleVal isPrint kv.2
-  sorted : SortedKeys args
+theorem col_fails_key {k : List Char} (hk : KeyName k) (s : List Char) : F (.ref R.col) (k ++ s) := by
+  rcases hk with ⟨c, cs, rfl, hc, _⟩ | hk
+  · exact col_fails_alpha c _ hc
+  · obtain ⟨t, rfl⟩ := reserved_head hk; exact col_fails_us _
 
-def evCall (isPrint : Char → Bool) (name : List Char) (args : List (Key × Val)) : List Ev :=
-  [.text name, .act (.startCall .text)] ++ args.flatMap (evArg isPrint) ++ [.act .endCall]
+theorem posfield_fails_us (t : List Char) : F (.ref R.posfield) ('_' :: t) := by
+  apply Fails.ref
+  show F e_posfield _
+  simp only [e_posfield, seqs]
+  exact Fails.seq_left (Fails.cap (fieldExpr_fails_head '_' t (by decide)))
 
-/-- Syntax: the grammar reads the printed call and records exactly `evCall`. -/
-theorem flat_parses (isPrint : Char → Bool) (name : List Char) (args : List (Key × Val))
-    (h : FlatCall isPrint name args) :
-    P (.ref Gen.start) (fmtCall isPrint (.mk name args [])) [] (evCall isPrint name args) := by
-  obtain ⟨hn, hsp, hne, hargs, hsorted⟩ := h
-  have hname : name ≠ [] := by obtain ⟨c, cs, rfl, _, _⟩ := hn; simp
-  rw [fmtCall_flat isPrint name args hname (fun kv hkv => (hargs kv hkv).2)]
-  -- the arguments
-  let pargs : List PArg := args.map (fun kv => ⟨argText isPrint kv, evArg isPrint kv⟩)
-  have hpok : ∀ a ∈ pargs, a.Ok := by
-    intro a ha
-    simp only [pargs, List.mem_map] at ha
-    obtain ⟨kv, hkv, rfl⟩ := ha
-    exact parg_ok isPrint kv (hargs kv hkv).1 (hargs kv hkv).2
-  have hpne : pargs ≠ [] := by simpa [pargs] using hne
-  have hargsP := args_ok pargs hpne hpok []
-  have htext : pargs.map (·.text) = args.map (argText isPrint) := by simp [pargs]
-  have hevs : pargs.flatMap (·.evs) = args.flatMap (evArg isPrint) := by
-    simp [pargs, List.flatMap_map]
-  rw [htext, hevs] at hargsP
-  -- `Call` does not match at the first argument
-  have hcf : F (.ref R.Call) (joinWith [',', ' '] (args.map (argText isPrint)) ++ [')']) := by
-    cases args with
-    | nil => exact absurd rfl hne
-    | cons a rest =>
-      obtain ⟨hk, _⟩ := hargs a (by simp)
-      obtain ⟨x, tl, hx, hxe⟩ := argText_head isPrint a
-      have hx1 : isAlnum x = false := by rcases hxe with rfl | rfl <;> decide
-      have hx2 : x ≠ '(' := by rcases hxe with rfl | rfl <;> decide
-      cases rest with
-      | nil =>
-        simp only [List.map, joinWith, hx, List.append_assoc, List.cons_append]
-        exact call_fails_key a.1 _ x hk hx1 hx2
-      | cons b rest' =>
-        simp only [List.map, joinWith, hx, List.append_assoc, List.cons_append]
-        exact call_fails_key a.1 _ x hk hx1 hx2
-  have hall := allargs_of_args hcf hargsP
-  have hws : NoWs (joinWith [',', ' '] (args.map (argText isPrint)) ++ [')']) := by
-    cases args with
-    | nil => exact absurd rfl hne
-    | cons a rest =>
-      obtain ⟨⟨c, cs, hk, hc, _⟩, _⟩ := hargs a (by simp)
-      have hcws : isWs c = false := by
-        cases hw : isWs c with
-        | false => rfl
-        | true =>
-          simp only [isWs, Bool.or_eq_true, decide_eq_true_eq] at hw
-          rcases hw with (rfl | rfl) | rfl <;> simp [isAlpha, isLower, isUpper] at hc
-      obtain ⟨x, tl, hx, _⟩ := argText_head isPrint a
-      cases rest with
-      | nil => simpa [List.map, joinWith, hx, hk, NoWs] using hcws
-      | cons b rest' => simpa [List.map, joinWith, hx, hk, NoWs] using hcws
-  have hcall := call_generic_ok name _ [] _ hn hsp hws trivial hall
-  have hnws : NoWs (name ++ '(' :: (joinWith [',', ' '] (args.map (argText isPrint)) ++ [')'])) := by
-    obtain ⟨c, cs, rfl, hc, _⟩ := hn
-    simp only [List.cons_append, NoWs]
-    cases hw : isWs c with
-    | false => rfl
-    | true =>
-      simp only [isWs, Bool.or_eq_true, decide_eq_true_eq] at hw
-      rcases hw with (rfl | rfl) | rfl <;> simp [isAlpha, isLower, isUpper] at hc
-  exact calls_single _ _ hnws hcall
+theorem posfield_ok {w r : List Char} (hw : FieldName w) (hr : NotHead isFieldCh r) :
+    P (.ref R.posfield) (w ++ r) r [.text w, .act (.addPosStr ['_', 'f', 'i', 'e', 'l', 'd'])] := by
+  apply Parses.ref
+  show P e_posfield _ _ _
+  simp only [e_posfield, seqs]
+  simpa using Parses.seq (Parses.cap_prefix (fieldExpr_ok hw hr)) (Parses.act _ r)
 
-/-- Semantics: the action machine turns `evCall` into the call. -/
-theorem flat_exec (isPrint : Char → Bool) (hnl : isPrint '\n' = false) (name : List Char)
-    (args : List (Key × Val)) (h : FlatCall isPrint name args) :
-    ∃ q, exec (evCall isPrint name args) {} = .ok q ∧ q.calls = [.mk name args []] := by
-  obtain ⟨hn, hsp, hne, hargs, hsorted⟩ := h
-  simp only [evCall, List.cons_append, List.nil_append]
-  rw [exec_text]
-  have hs : stepAct { ({} : QState) with text := name } (.startCall .text) =
-      .ok { ({} : QState) with text := name, stack := [{ name := name, attach := .top }] } := by
-    simp [stepAct, startCall, sargText]
-  rw [exec_act_ok _ hs]
-  obtain ⟨t, hexec⟩ := exec_args isPrint hnl args hargs hsorted
-    { ({} : QState) with text := name, stack := [{ name := name, attach := .top }] }
-    { name := name, attach := .top } [] [.act .endCall] rfl ⟨rfl, rfl, rfl⟩ (by simp [lookup])
-  rw [hexec, foldl_insert_sorted args [] hsorted (by simp)]
-  refine ⟨{ calls := [.mk name args []], stack := [], text := t }, ?_, rfl⟩
-  simp [exec, stepEv, stepAct, endCall, Elem.toCall]
-  rfl
+/-- One special-form alternative on `name(body`: it fails when the keyword is another name, and when
+it is this name and what follows `(` fails on the body. -/
+theorem special_alt_fails (kw : List Char) (a : Act) (more : PExpr) (name body : List Char)
+    (hn : IdentName name) (hkw : kw ∈ specialKws) (hws : NoWs body) (hmore : name = kw → F more body) :
+    F (.seq (lit kw) (.seq (.act a) (.seq (.ref R.open') more))) (name ++ '(' :: body) := by
+  by_cases e : name = kw
+  · subst e
+    exact Fails.seq_right (Parses.lit name _) (Fails.seq_right (Parses.act a _)
+      (Fails.seq_right (open_ok hws) (hmore rfl)))
+  · refine special_fails kw a more _ (specialKws_alpha kw hkw).1 ?_
+    intro t e'
+    have hxkw : '(' ∉ kw := fun hmem => by
+      have := alpha_of_mem_kw hkw hmem; revert this; decide
+    obtain ⟨u, hu1, hu2⟩ := append_eq_split kw t name '(' _ hxkw e'.symm
+    subst hu2
+    cases u with
+    | nil => exact absurd (by simpa using hu1) e
+    | cons y ys =>
+      have hy : y ∈ name := by rw [hu1]; simp
+      simpa [NotHead] using alnum_ne_open (identName_alnum hn y hy)
 
+/-- What follows `(` in the `Range` alternative (`field sp '=' sp value ..`) fails on a body that begins
+with a child call or with a condition. -/
+theorem range_more_fails (body : List Char) (h : RangeBody body) (more : PExpr) :
+    F (.seq (.ref R.field) (.seq (.ref R.sp) (.seq (.chr '=') (.seq (.ref R.sp) (.seq (.ref R.value) more))))) body := by
+  obtain ⟨k, x, rest, rfl, hk, hx⟩ := h
+  rcases hx with rfl | ⟨rfl, op, hop, tl, rfl⟩
+  · refine Fails.seq_right (key_ok hk (by simp [NotHead, isFieldCh, isAlnum, isAlpha, isLower, isUpper, isDigit]))
+      (Fails.seq_right (sp_nil (by simp [NoWs, isWs])) (Fails.seq_left (Fails.chr_ne _ (by decide))))
+  · obtain ⟨c, t, hct, hcws, hceq⟩ := opText_head op hop
+    have hnw : NoWs (opText op ++ ' ' :: tl) := by rw [hct]; simpa [NoWs] using hcws
+    refine Fails.seq_right (key_ok hk (by simp [NotHead, isFieldCh, isAlnum, isAlpha, isLower, isUpper, isDigit]))
+      (Fails.seq_right (sp_one hnw) ?_)
+    by_cases he : c = '='
+    · have hop' := hceq he
+      subst hop'
+      simp only [opText, List.cons_append, List.nil_append]
+      exact Fails.seq_right (Parses.chr '=' _)
+        (Fails.seq_right (sp_nil (by simp [NoWs, isWs])) (Fails.seq_left (value_fails_eq _)))
+    · rw [hct]; exact Fails.seq_left (Fails.chr_ne _ he)
+
+/-- The generic alternative of `Call` on `Name(args)`: the dedicated alternatives fail (`SpecialFree`). -/
+theorem call_generic_ok (name atext r : List Char) (evs : List Ev) (hn : IdentName name)
+    (hsp : SpecialFree name (atext ++ ')' :: r)) (hws : NoWs (atext ++ ')' :: r)) (hr : NoWs r)
+    (ha : P (.ref R.allargs) (atext ++ ')' :: r) (')' :: r) evs) :
+    P (.ref R.Call) (name ++ '(' :: (atext ++ ')' :: r)) r
+      ([.text name, .act (.startCall .text)] ++ evs ++ [.act .endCall]) := by
+  -- what follows `(` in the dedicated alternatives fails on the body
+  have hcol : ∀ kw ∈ specialKws, name = kw → kw ∈ wideKws → ∀ more : PExpr,
+      F (.seq (.ref R.col) more) (atext ++ ')' :: r) := by
+    intro kw hkw e hw more
+    rcases hsp with h | ⟨_, k, x, rest, hb, hk, _⟩ | ⟨hr, _⟩
+    · exact absurd (e ▸ hkw) h
+    · rw [hb]; exact Fails.seq_left (col_fails_key hk _)
+    · rw [← e, hr] at hw; simp [wideKws, rangeKw] at hw
+  have hpos1 : ∀ kw ∈ specialKws, name = kw → kw ∈ wideKws → ∀ more : PExpr,
+      F (.seq (.ref R.posfield) (.seq (.ref R.comma) more)) (atext ++ ')' :: r) := by
+    intro kw hkw e hw more
+    rcases hsp with h | ⟨_, k, x, rest, hb, hk, hx, _, hcm⟩ | ⟨hr, _⟩
+    rotate_left 2
+    · rw [← e, hr] at hw; simp [wideKws, rangeKw] at hw
+    · exact absurd (e ▸ hkw) h
+    · rw [hb]
+      rcases hk with hk | hk
+      · exact Fails.seq_right (posfield_ok hk (by simpa [NotHead] using hx)) (Fails.seq_left hcm)
+      · obtain ⟨t, rfl⟩ := reserved_head hk; exact Fails.seq_left (posfield_fails_us _)
+  have hpos2 : ∀ kw ∈ specialKws, name = kw → kw ∈ wideKws → ∀ more : PExpr,
+      F (.seq (.ref R.posfield) (.seq (.opt (.seq (.ref R.comma) (.ref R.allargs))) (.seq (.ref R.close) more)))
+        (atext ++ ')' :: r) := by
+    intro kw hkw e hw more
+    rcases hsp with h | ⟨_, k, x, rest, hb, hk, hx, hxc, hcm⟩ | ⟨hr, _⟩
+    rotate_left 2
+    · rw [← e, hr] at hw; simp [wideKws, rangeKw] at hw
+    · exact absurd (e ▸ hkw) h
+    · rw [hb]
+      rcases hk with hk | hk
+      · exact Fails.seq_right (posfield_ok hk (by simpa [NotHead] using hx))
+          (Fails.seq_right (Parses.opt_none (Fails.seq_left hcm))
+            (Fails.seq_left (close_fails (by simpa [NotHead] using hxc))))
+      · obtain ⟨t, rfl⟩ := reserved_head hk; exact Fails.seq_left (posfield_fails_us _)
+  have hhard : ∀ kw ∈ hardKws, name = kw → ∀ more : PExpr, F more (atext ++ ')' :: r) := by
+    intro kw hkw e more
+    rcases hsp with h | ⟨hw, _⟩ | ⟨hr, _⟩
+    · exact absurd (e ▸ (by
+        simp only [hardKws, List.mem_cons, List.not_mem_nil, or_false] at hkw
+        rcases hkw with rfl | rfl <;> simp [specialKws])) h
+    · subst e
+      simp only [hardKws, List.mem_cons, List.not_mem_nil, or_false] at hkw
+      rcases hkw with rfl | rfl <;> simp [wideKws] at hw
+    · subst e
+      simp only [hardKws, List.mem_cons, List.not_mem_nil, or_false] at hkw
+      rcases hkw with rfl | rfl <;> simp [rangeKw] at hr
+  have hrange : name = rangeKw → ∀ more : PExpr,
+      F (.seq (.ref R.field) (.seq (.ref R.sp) (.seq (.chr '=') (.seq (.ref R.sp) (.seq (.ref R.value) more)))))
+        (atext ++ ')' :: r) := by
+    intro e more
+    rcases hsp with h | ⟨hw, _⟩ | ⟨_, hb⟩
+    · rw [e] at h; exact absurd (by simp [specialKws, rangeKw]) h
+    · rw [e] at hw; simp [wideKws, rangeKw] at hw
+    · exact range_more_fails _ hb more
+  apply Parses.ref
+  show P e_Call _ _ _
+  simp only [e_Call, alts, seqs]
+  refine Parses.alt_right (special_alt_fails _ _ _ name _ hn (by simp [specialKws]) hws
+      (fun e => hcol _ (by simp [specialKws]) e (by simp [wideKws]) _))
+    (Parses.alt_right (special_alt_fails _ _ _ name _ hn (by simp [specialKws]) hws
+      (fun e => hpos1 _ (by simp [specialKws]) e (by simp [wideKws]) _))
+    (Parses.alt_right (special_alt_fails _ _ _ name _ hn (by simp [specialKws]) hws
+      (fun e => hcol _ (by simp [specialKws]) e (by simp [wideKws]) _))
+    (Parses.alt_right (special_alt_fails _ _ _ name _ hn (by simp [specialKws]) hws
+      (fun e => hcol _ (by simp [specialKws]) e (by simp [wideKws]) _))
+    (Parses.alt_right (special_alt_fails _ _ _ name _ hn (by simp [specialKws]) hws
+      (fun e => hhard _ (by simp [hardKws]) e _))
+    (Parses.alt_right (special_alt_fails _ _ _ name _ hn (by simp [specialKws]) hws
+      (fun e => hhard _ (by simp [hardKws]) e _))
+    (Parses.alt_right (special_alt_fails _ _ _ name _ hn (by simp [specialKws]) hws
+      (fun e => hpos2 _ (by simp [specialKws]) e (by simp [wideKws]) _))
+    (Parses.alt_right (special_alt_fails _ _ _ name _ hn (by simp [specialKws]) hws
+      (fun e => hpos2 _ (by simp [specialKws]) e (by simp [wideKws]) _))
+    (Parses.alt_right (special_alt_fails _ _ _ name _ hn (by simp [specialKws]) hws
+      (fun e => hrange e _))
+    ?_))))))))
+  have h1 : P (.cap (.ref R.IDENT)) (name ++ '(' :: (atext ++ ')' :: r)) ('(' :: (atext ++ ')' :: r))
+      ([] ++ [.text name]) :=
+    Parses.cap_prefix (ident_ok hn (by simp [NotHead, isAlnum, isAlpha, isLower, isUpper, isDigit]))
+  have h2 := Parses.act (rule := Gen.rule) (.startCall .text) ('(' :: (atext ++ ')' :: r))
+  have h3 := open_ok hws
+  have h4 : P (.opt (.ref R.comma)) (')' :: r) (')' :: r) [] :=
+    Parses.opt_none (comma_fails (by simp [NoWs, isWs]) (by simp [NotHead]))
+  have h5 := close_ok hr
+  have h6 := Parses.act (rule := Gen.rule) .endCall r
+  have h := Parses.seq h1 (Parses.seq h2 (Parses.seq h3 (Parses.seq ha (Parses.seq h4 (Parses.seq h5 h6)))))
+  simpa using h
+
+/-- `Calls` on the text of one call. -/
+theorem calls_single (ctext : List Char) (evs : List Ev) (hws : NoWs ctext)
+    (h : P (.ref R.Call) ctext [] evs) : P (.ref R.Calls) ctext [] evs := by
+  apply Parses.ref
+  show P e_Calls _ _ _
+  simp only [e_Calls, seqs]
+  have h1 : P (.ref R.sp) ctext ctext [] := sp_nil hws
+  have hsp0 : P (.ref R.sp) [] [] [] := sp_nil trivial
+  have hstar : P (.star (.seq (.ref R.Call) (.ref R.sp))) ctext [] (evs ++ [] ++ []) :=
+    Parses.star_cons (Parses.seq h hsp0) (Parses.star_nil (Fails.seq_left call_fails_nil))
+  have hend : P (.notP .any) [] [] [] := Parses.notP Fails.any_nil
+  simpa using Parses.seq h1 (Parses.seq hstar hend)
 
 end PV.C26
